@@ -117,7 +117,7 @@ def run(p, report, tier):
                not truthy, detail="only passed on / compared with None" if not truthy else
                f"`{norm_stmt(truthy[0], 50)}` treats the seed 0 as 'not given': two calls with random_state=0 differ")
     sr = p.get_class("SklearnRegressor")
-    smp = sr.methods.get("_sample")
+    smp = c01.method_by_role(sr, "_sample", lambda n: any(isinstance(t, ast.Try) for t in ast.walk(n)) and c01._calls(n, {"randn", "standard_normal", "normal"}))
     prd = sr.methods.get("predict")
     fit = sr.methods.get("_fit")
     if not (smp and prd and fit):
